@@ -403,8 +403,14 @@ def r17_5(ctx):
         for d, vals, excl, s, tg in dominating_facts(b, ex, bb):
             truth = True if ((vals is None and excl == [0]) or vals == [1]) else (False if vals == [0] else None)
             d0 = strip_refs(d)
-            if d0[0] == "call" and d0[1].endswith("<impl char>::is_whitespace") and truth is not None:
+            if truth is None:
+                continue
+            if d0[0] == "un" and d0[1] == "Not":
+                d0, truth = strip_refs(d0[2]), not truth
+            if d0[0] == "call" and d0[1].endswith("<impl char>::is_whitespace"):
                 ws[strip_refs(d0[2][0])] = truth
+            elif d0[0] == "var" and b.local_ty(d0[1]) == "bool":
+                ws[d0] = truth          # a remembered condition (decided below by what it is assigned)
         if a == ("char", " "):
             kinds["space"] = (bb, ws)
         else:
@@ -414,23 +420,46 @@ def r17_5(ctx):
     if ok:
         cb, cws, ca = kinds["copy"]
         sb, sws = kinds["space"]
+        cws = {k: v for k, v in cws.items() if not (k[0] == "var" and b.local_ty(k[1]) == "bool")}
         ok_copy = cws == {ca: False} and ca[0] == "field" and ca[1][0] == "downcast"   # the loop item
         others = [k for k in sws if k != ca]
-        ok_space = sws.get(ca) is True and len(others) == 1 and sws[others[0]] is False and others[0][0] == "var"
-        # prev is assigned the current char on every iteration
-        ok_prev = False
-        if ok_space:
+        # what the one other fact remembers about the previous character: the character itself
+        # (`prev = c`, tested with is_whitespace) or its classification (`flag = c.is_whitespace()`,
+        # possibly negated); in both cases it must be re-assigned from the current item on every iteration
+        ok_space, ok_prev = False, False
+        if sws.get(ca) is True and len(others) == 1 and others[0][0] == "var":
             pl = others[0][1]
+            is_flag = b.local_ty(pl) == "bool"
+            means = set()       # 'ws': carrier true <=> previous char is whitespace; 'notws': the negation
+            every = True
+            lps = b.loops()
             for loc, k in b.reaching().all_sites(pl):
-                if k == "whole" and loc[1] < len(b.stmts(loc[0])):
-                    e = strip_refs(ex.rvalue(b.stmts(loc[0])[loc[1]]["rv"], loc))
-                    if e == ca:
-                        lp = [h for h, body_ in b.loops().items() if loc[0] in body_]
-                        # executed on every iteration: the assignment block post-dominates the Some edge
-                        ok_prev = bool(lp) and not b.reaches(cb, lp[0], removed_nodes={loc[0]}) and not b.reaches(sb, lp[0], removed_nodes={loc[0]})
+                inl = [h for h, body_ in lps.items() if loc[0] in body_]
+                if not inl:
+                    continue
+                if k != "whole" or loc[1] >= len(b.stmts(loc[0])):
+                    means.add("?")
+                    continue
+                e = strip_refs(ex.rvalue(b.stmts(loc[0])[loc[1]]["rv"], loc))
+                neg = False
+                if e[0] == "un" and e[1] == "Not":
+                    e, neg = strip_refs(e[2]), True
+                if not is_flag and e == ca and not neg:
+                    means.add("ws")
+                elif is_flag and e[0] == "call" and e[1].endswith("<impl char>::is_whitespace") and strip_refs(e[2][0]) == ca:
+                    means.add("notws" if neg else "ws")
+                else:
+                    means.add("?")
+                # executed on every iteration: no way from either push back to the header around it
+                every = every and not b.reaches(cb, inl[0], removed_nodes={loc[0]}) and not b.reaches(sb, inl[0], removed_nodes={loc[0]})
+            if means == {"ws"}:
+                ok_space = sws[others[0]] is False
+            elif means == {"notws"}:
+                ok_space = sws[others[0]] is True
+            ok_prev = means in ({"ws"}, {"notws"}) and every
         ctx.ob("clean_input:copy-non-whitespace", ok_copy, b.where(b.term_loc(cb)), "a character is pushed unchanged exactly under !is_whitespace(c)")
         ctx.ob("clean_input:single-space", ok_space, b.where(b.term_loc(sb)), "a space is pushed exactly under is_whitespace(c) && !is_whitespace(previous)")
-        ctx.ob("clean_input:previous-tracks-current", ok_prev, b.file, "previous = c on every iteration")
+        ctx.ob("clean_input:previous-tracks-current", ok_prev, b.file, "what is remembered about the previous character is re-assigned from the current one on every iteration")
     else:
         ctx.ob("clean_input:push-sites", False, b.file, "expected one copying push and one space push, found %s" % sorted(kinds), reason="shape-not-recognised")
     rets = []
@@ -459,6 +488,12 @@ REPLY_NOPANIC = {
     "std::option::Option::<T>::is_none": "discriminant test",
     "std::option::Option::<T>::is_some": "discriminant test",
     "std::option::Option::<T>::unwrap_or": "total",
+    "std::option::Option::<T>::take": "total (mem::replace with None)", "std::option::Option::<T>::replace": "total",
+    "std::option::Option::<T>::as_ref": "total", "std::option::Option::<T>::as_mut": "total",
+    "<std::sync::mpsc::TryRecvError as std::cmp::PartialEq>::eq": "derived comparison of a field-less enum",
+    "<std::sync::mpmc::TryRecvError as std::cmp::PartialEq>::eq": "derived comparison of a field-less enum",
+    "<std::sync::mpsc::TryRecvError as std::cmp::PartialEq>::ne": "derived comparison of a field-less enum",
+    "<std::sync::mpmc::TryRecvError as std::cmp::PartialEq>::ne": "derived comparison of a field-less enum",
     "std::f64::<impl f64>::round": "total",
     "std::cmp::Ord::min": "total", "std::cmp::Ord::max": "total", "std::cmp::min": "total", "std::cmp::max": "total",
     "std::time::Duration::saturating_sub": "saturating", "std::time::Duration::checked_sub": "returns Option",
